@@ -52,6 +52,15 @@
 (* value: ExtNum gives its sign, its exact decimal digits (digit-sequence  *)
 (* arithmetic below: TLC has 32-bit integers), whether a float64 holds it  *)
 (* exactly, and its decimal exponent.                                      *)
+(*                                                                         *)
+(* Calls inside whole programs (NativeProgram.tla): PosOutcome -- the call *)
+(* written in every syntactic POSITION of a program (BEGIN, action,        *)
+(* pattern, both expressions of a range pattern, function body, END, file  *)
+(* name of a getline, condition, subscript, argument of a builtin / an AWK *)
+(* function / printf): an error aborts the run there; KeepOutcome --       *)
+(* several calls whose []byte / string results are KEPT (variable, array   *)
+(* element, field, array subscript) while the Go function reuses or wipes  *)
+(* the memory it returned: a result is a value, it never changes.          *)
 (***************************************************************************)
 EXTENDS Integers, Sequences, FiniteSets, TLC
 
@@ -338,6 +347,73 @@ SessionOutcomes(sig, args, called, runs) ==
   [j \in 1..Len(runs) |->
      IF runs[j] = "bad" THEN [orsetup |-> FALSE, outcome |-> OutcomeFull(sig, args, called, "none", DefaultCf)]
      ELSE [orsetup |-> TRUE, outcome |-> OutcomeFull(Fixed(sig), args, called, "none", DefaultCf)]]
+
+\* ---- native calls inside whole programs (NativeProgram.tla runs both as state machines) ----
+\* (1) POSITIONS.  "A non-nil error aborts the run with exactly that error" -- wherever in the program the call is
+\* written.  A case is [sig, args, pos]: the function (no or one int parameter, a constant result, every error mode) is
+\* called ONCE, in the syntactic position pos, while the one input record is processed (BEGIN and END: there); a
+\* statement placed right after the call prints the marker "A:", and the program ends with  END { print "E:end" }.
+\*    begin        BEGIN { x = fn(..); print "A:" x }
+\*    action       { x = fn(..); print "A:" x }
+\*    pattern      fn(..) { print "A:" }                      (the constant results are all true)
+\*    range-start  fn(..), 0 { print "A:" }
+\*    range-stop   1, fn(..) { print "A:" }                  (evaluated for the record that opens the range)
+\*    func-body    function w(a) { a = fn(..); return a }  { x = w(1); print "A:" x }
+\*    end          END { x = fn(..); print "A:" x }
+\*    getline-file { getline ln < ("/nonexistent-c17/" fn(..)); print "A:" }
+\*    cond         { if (fn(..)) print "A:" }
+\*    subscript    { arr[fn(..)] = 1; print "A:" }
+\*    builtin-arg  { x = length(fn(..)); print "A:" x }
+\*    user-arg     function w(a) { return a }  { x = w(fn(..)); print "A:" x }
+\*    printf-arg   { printf "A:%s\n", fn(..) }
+Positions == {"begin", "action", "pattern", "range-start", "range-stop", "func-body", "end", "getline-file", "cond",
+              "subscript", "builtin-arg", "user-arg", "printf-arg"}
+\* the part of a run in which the call of position pos is evaluated
+StageOf(pos) == CASE pos = "begin" -> "begin" [] pos = "end" -> "end"
+                  [] pos \in {"pattern", "range-start", "range-stop"} -> "pattern" [] OTHER -> "action"
+\* Outcome: the error aborts the run -- Execute returns that error, the END marker is never printed, and the statement
+\* after the call does not run (after = FALSE).  For range-stop the marker "A:" is in the action of the same record;
+\* whether that action runs before the stop expression is evaluated is not said anywhere: afterJudged = FALSE.
+\* Without an error everything runs: one call, both markers.
+PosOutcome(sig, args, pos) ==
+  IF sig.err = "err" THEN [o |-> "abort", calls |-> 1, after |-> FALSE, afterJudged |-> pos # "range-stop", endmark |-> FALSE]
+  ELSE [o |-> "ok", calls |-> 1, after |-> TRUE, afterJudged |-> TRUE, endmark |-> TRUE]
+
+\* (2) RESULTS ARE VALUES.  "Returns the converted result": the AWK value of fn(x) is the string form of the bytes the
+\* Go function returned WHEN IT RETURNED, and stays that -- whatever the function does with its memory afterwards.  A
+\* case is [rk, policy, hold, args]: fn(s string) rk returns the text of s
+\*    policy "fresh"    in newly allocated memory
+\*           "scratch"  in ONE buffer of its own, which every call overwrites (buf = append(buf[:0], s...); return buf)
+\*           "wipe"     in new memory, after filling the memory it returned the last time with '#'
+\* and the program calls it Len(args) times, KEEPING every result
+\*    hold "var"        r1 = fn(a1); r2 = fn(a2) ...           print "K:" r1 ...
+\*         "elem"       h[1] = fn(a1); h[2] = fn(a2) ...       print "K:" h[1] ...
+\*         "field"      $5 = fn(a1); $6 = fn(a2) ...           print "K:" $5 ...
+\*         "subscript"  s[fn(a1)] = 1; s[fn(a2)] = 2 ...       for (k in s) print "S:" k ":" s[k]   (in any order)
+\* before it looks at any of them.
+KeepRks == {"bytes", "string"}
+KeepPolicies(rk) == IF rk = "bytes" THEN {"fresh", "scratch", "wipe"} ELSE {"fresh"}      \* a Go string cannot be overwritten
+KeepHolds == {"var", "elem", "field", "subscript"}
+KeepValues == {"three", "negthree", "abc", "s12", "n300", "big"}
+Wiped == "#wiped#"
+\* the calls whose text no later call repeats (an array has ONE element per subscript: the last assignment stays)
+LastCalls(args) == SelectSeq([j \in 1..Len(args) |-> j], LAMBDA j : \A m \in (j + 1)..Len(args) : StrForm(args[m]) # StrForm(args[j]))
+KeepOutcome(c) ==
+  IF c.hold = "subscript"
+  THEN LET lc == LastCalls(c.args)
+       IN [o |-> "ok", calls |-> Len(c.args), kept |-> [q \in 1..Len(lc) |-> [key |-> StrForm(c.args[lc[q]]), val |-> ToString(lc[q])]]]
+  ELSE [o |-> "ok", calls |-> Len(c.args), kept |-> [j \in 1..Len(c.args) |-> [key |-> ToString(j), val |-> StrForm(c.args[j])]]]
+
+\* the universes of the two families (shared by MC_NativeProgram and Gen_Native)
+PosRks  == {"int", "string", "bytes", "bool", "float64"}
+PosSigs == {[shape |-> "ok", name |-> "fn", params |-> ps, variadic |-> FALSE, res |-> "const", rk |-> k, err |-> e]
+            : ps \in {<<>>, <<"int">>}, k \in PosRks, e \in {"none", "nil", "err"}}
+PosCases == {[sig |-> sg, args |-> [j \in 1..Len(sg.params) |-> "three"], pos |-> ps] : sg \in PosSigs, ps \in Positions}
+RECURSIVE KeepArgLists(_)
+KeepArgLists(n) == IF n = 0 THEN {<<>>} ELSE {Append(a, v) : a \in KeepArgLists(n - 1), v \in KeepValues}
+KeepCases(maxcalls) ==
+  UNION {UNION {{[rk |-> k, policy |-> pl, hold |-> h, args |-> a] : a \in UNION {KeepArgLists(n) : n \in 2..maxcalls}, h \in KeepHolds}
+                : pl \in KeepPolicies(k)} : k \in KeepRks}
 
 \* an "echo" function returns its first parameter: it needs one, of the result's kind
 WellFormedSig(sig) ==
